@@ -656,12 +656,13 @@ def BOp.plain : BOp → Bool
 
 /-- What the model state shows, compared with a specification state: every account reads the same,
 the same contracts are staged and every key of a staged storage reads the same. -/
+def StorAbs : Option Storage → Option (AMap Nat) → Prop
+  | some st, some m => ∀ k, st.view k = m.get k
+  | none, none => True
+  | _, _ => False
+
 def Abs (s : SDB) (σ : Spec) : Prop :=
-  (∀ a, s.view a = σ.acct.get a) ∧
-  (∀ c, match s.cache.get c, σ.staged.get c with
-    | some st, some m => ∀ k, st.view k = m.get k
-    | none, none => True
-    | _, _ => False)
+  (∀ a, s.view a = σ.acct.get a) ∧ (∀ c, StorAbs (s.cache.get c) (σ.staged.get c))
 
 /-! ### what reaches the key/value store
 
